@@ -121,7 +121,7 @@ BIG_COUNTS = [2**60 - 2, 2**60 - 1, 2**60, 2**60 + 1, 2**61, 2**62 - 1, 2**62, 2
 class C08(Prop):
     id = "C08"
     thorough_rounds = 10   # thorough tier: this many independently seeded rounds of the random generators (duplicates dropped)
-    modules = ["H3.Props.C08"]
+    modules = ["H3.Props.C08", "H3.Lemmas.GenAgreeGoaway"]
     engines = ["goaway"]
     design_ref = "DESIGN.md section 7, C08; section 8, D-08; section 9, R-08"
     level_text = ("Lean theorems over a model of server shutdown()/accept() (GOAWAY id computation incl. StreamId saturation, "
